@@ -102,20 +102,186 @@ def pretty_rows(rows):
 
 
 def run_witnesses(binp, pid, verdict, sc):
-    """Execute the recorded witness of every open finding of pid that has one; a witness that still
-    disagrees with the specification is reported through the verdict (-> KNOWN-FINDING)."""
-    n = 0
-    for f in lib.load_findings(pid):      # open AND fixed: a fixed defect that returns is a violation
-        wit = f.get("witness_file")
-        if not wit:
+    """Execute the recorded witness of every finding of pid (open AND fixed: a fixed defect that
+    returns is a violation) in one engine process and one TLC validation; a witness that still
+    disagrees with the specification is reported through the verdict (-> KNOWN-FINDING if open)."""
+    fs = [f for f in lib.load_findings(pid) if f.get("witness_file")]
+    if not fs:
+        return 0
+    src = os.path.join(sc, "witnesses-in.ndjson")
+    owner = {}
+    with open(src, "w") as out:
+        for k, f in enumerate(fs):
+            for line in open(os.path.join(lib.VERIF, f["witness_file"])):
+                if not line.strip():
+                    continue
+                e = json.loads(line)
+                if "id" in e:
+                    e["id"] = 9000000 + k * 1000 + e["id"] % 1000
+                    owner[e["id"]] = f["id"]
+                out.write(json.dumps(e) + "\n")
+    res = os.path.join(sc, "witnesses-out.ndjson")
+    lib.run_report([binp, "-mode", "exec", "-in", src, "-out", res])
+    mms, _ = validate_trace(res, chunk=1000, procs=2)
+    evs = load_events(res)
+    for m in mms:
+        ev = bad_result(evs[m["line"]], m)
+        verdict.add(signature(pid, ev), {"sql": ev.get("sql"), "got": ev.get("res"), "witness_of": owner.get(ev.get("id"))})
+    return len(mms)
+
+
+# ---------------------------------------------------------------- generic driver-based check
+
+def confirm_batch(binp, pid, run_args, evs, scd, tag="case"):
+    """Re-run the given mismatching cases alone in ONE fresh process and re-validate them. Returns the
+    set of ids that disagree again; keeps one isolated case file per confirmed id under replays/."""
+    if not evs:
+        return set()
+    ids = sorted({e["id"] for e in evs})
+    out = os.path.join(scd, "confirm-%s.ndjson" % tag)
+    lib.run_report([binp] + run_args + ["-only", ",".join(map(str, ids)), "-out", out])
+    mms, _ = validate_trace(out, chunk=400)
+    cevs = load_events(out)
+    again = {cevs[m["line"]]["id"] for m in mms}
+    d = os.path.join(lib.VERIF, "replays", pid)
+    os.makedirs(d, exist_ok=True)
+    lines = open(out).read().splitlines()
+    cur_db = None
+    for line in lines:
+        if line.startswith('{"ev":"db"'):
+            cur_db = line
             continue
-        src = os.path.join(lib.VERIF, wit)
-        out = os.path.join(sc, "wit-%s.ndjson" % f["id"])
-        lib.run_report([binp, "-mode", "exec", "-in", src, "-out", out])
-        mms, _ = validate_trace(out, chunk=1000, procs=2)
-        evs = load_events(out)
+        e = json.loads(line)
+        if e.get("id") in again:
+            keep = os.path.join(d, "%s-seed%d-id%d.ndjson" % (tag, lib.seed(), e["id"]))
+            with open(keep, "w") as f:
+                f.write((cur_db or "") + "\n" + line + "\n")
+            for ev in evs:
+                if ev["id"] == e["id"]:
+                    ev["case_file"] = keep
+    return again
+
+
+def bad_result(ev, m):
+    """For multi/same events: a copy of ev focused on the first disagreeing variant."""
+    if ev.get("ev") in ("multi", "same") and m.get("bad"):
+        i = sorted(m["bad"])[0] - 1
+        e2 = dict(ev)
+        e2["res"] = ev["ress"][i]
+        e2["sql"] = ev["sqls"][i]
+        e2["variant"] = (ev.get("labels") or [str(i)] * (i + 1))[i]
+        return e2
+    return ev
+
+
+def driver_check(pid, tier, gen_args, rule, chunk=80, level="model_checking", extra_cov=None, assumptions=(), mc_sample=0):
+    """Generate with cmd/sqlq (gen_args), validate every recorded event with TLC against
+    Trace_Query/SQLSem, confirm each disagreement in isolation, classify, write evidence."""
+    t0 = time.time()
+    binp = lib.build("sqlq")
+    v = lib.Verdict(pid)
+    with lib.Scratch() as scd:
+        nw = run_witnesses(binp, pid, v, scd)
+        mc_cov = run_mc_cases(binp, pid, v, scd, mc_sample) if mc_sample else {}
+        trace = os.path.join(scd, "trace.ndjson")
+        rep = lib.run_report([binp] + gen_args + ["-out", trace], timeout=3000)
+        lib.log("[%s] generated %d cases in %.1fs" % (pid, rep["cases"], time.time() - t0))
+        mms, states = validate_trace(trace, chunk=chunk)
+        lib.log("[%s] validated, %d mismatches, %.1fs" % (pid, len(mms), time.time() - t0))
+        evs = load_events(trace)
+        bad = [evs[m["line"]] for m in mms]
+        again = confirm_batch(binp, pid, gen_args, bad, scd)
         for m in mms:
             ev = evs[m["line"]]
-            verdict.add(signature(pid, ev), {"sql": ev.get("sql"), "got": ev.get("res"), "witness_of": f["id"]})
-            n += 1
-    return n
+            if ev["id"] not in again:
+                raise lib.Inconclusive("mismatch did not reproduce in isolation: %s" % (ev.get("sql") or ev.get("sqls")))
+            b = bad_result(ev, m)
+            sig = signature(pid, b)
+            if b.get("variant"):
+                sig += "|variant:" + b["variant"]
+            v.add(sig, {"sql": b.get("sql"), "got": b.get("res"), "expected_rows": pretty_rows(m.get("exp", [])),
+                        "id": ev["id"], "seed": lib.seed(), "gen_args": gen_args, "case_file": ev.get("case_file"),
+                        "what": m.get("what")})
+        rc = v.finish()
+        cov = {
+            "states": states, "transitions": states,
+            "traces_validated_against_impl": rep["cases"],
+            "samples": rep["samples"] or ["(no sample met the sampling rule this run)"],
+            "evaluations": rep["cases"], "distinct_nontrivial": rep["nontrivial"],
+            "rule": rule, "result_kinds": rep["extra"].get("result_kinds"),
+            "mismatches_reproduced": len(mms), "witness_mismatches": nw,
+        }
+        cov.update({k: v2 for k, v2 in rep["extra"].items() if k != "result_kinds"})
+        cov.update(mc_cov)
+        if extra_cov:
+            cov.update(extra_cov)
+        lib.write_evidence(pid, tier, level, cov, time.time() - t0, violations=len(v.violations), assumptions=assumptions)
+        return rc
+
+
+def replay_case(pid, path):
+    """Re-run a recorded case file (db + q/multi events) on the current tree and re-validate it."""
+    binp = lib.build("sqlq")
+    if path.endswith(".json"):
+        path = json.load(open(path))["first"]["detail"]["case_file"]
+    with lib.Scratch() as scd:
+        out = os.path.join(scd, "replay.ndjson")
+        lib.run_report([binp, "-mode", "exec", "-in", path, "-out", out])
+        mms, _ = validate_trace(out, chunk=1000, procs=1)
+        evs = load_events(out)
+        for m in mms:
+            print("VIOLATION property=%s replay=%s" % (pid, path))
+            print(json.dumps({"sql": evs[m["line"]].get("sql"), "got": evs[m["line"]].get("res"), "expected": m.get("exp")})[:2000])
+        return 1 if mms else 0
+
+
+# ---------------------------------------------------------------- binding A: TLC-enumerated query cases
+
+def mc_query_cases(n, path, id_base=1000000):
+    """TLC (spec/MC_Query.tla, simulate mode) draws n (table, predicate) pairs from the bounded
+    enumeration, checks the design-level laws on each, and emits the query family of each pair; the
+    cases are written as db/q events for `sqlq -mode exec`. Returns (number of queries, TLCResult)."""
+    r = lib.tlc("MC_Query", "MC_Query_emit.cfg", workers=1, timeout=900, simulate="num=%d" % n, depth=3,
+                tlc_seed=lib.seed(), heap="3g")
+    if r.error or r.invariant_violated:
+        raise lib.Inconclusive("MC_Query: %s\n%s" % (r.error or r.invariant_violated, r.out[-2000:]))
+    cases = r.jsons("CASE")
+    if len(cases) < n * 0.9:
+        raise lib.Inconclusive("MC_Query emitted only %d cases" % len(cases))
+    urows = [[{"t": "i", "v": 1}, {"t": "n"}], [{"t": "i", "v": 0}, {"t": "i", "v": 1}]]
+    cases.sort(key=lambda c: json.dumps(c["tb"], sort_keys=True))
+    last, nq = None, 0
+    with open(path, "w") as f:
+        for c in cases:
+            key = json.dumps(c["tb"], sort_keys=True)
+            if key != last:
+                last = key
+                cols = [{"ty": "i", "coll": "none", "notnull": False}] * 2
+                schema = [{"name": "t", "cols": cols, "pk": [], "indexes": [], "unique": [], "rows": c["tb"]},
+                          {"name": "u", "cols": cols, "pk": [], "indexes": [], "unique": [], "rows": urows}]
+                f.write(json.dumps({"ev": "db", "db": {"t": {"w": 2, "rows": c["tb"]}, "u": {"w": 2, "rows": urows}},
+                                    "schema": schema}) + "\n")
+            for q in c["qs"]:
+                nq += 1
+                f.write(json.dumps({"ev": "q", "id": id_base + nq, "q": q}) + "\n")
+    return nq, r
+
+
+def run_mc_cases(binp, pid, verdict, scd, n):
+    """Binding A for the query properties: execute TLC-enumerated cases on the engine and validate."""
+    cases = os.path.join(scd, "mc-cases.ndjson")
+    nq, r = mc_query_cases(n, cases)
+    out = os.path.join(scd, "mc-trace.ndjson")
+    rep = lib.run_report([binp, "-mode", "exec", "-in", cases, "-out", out], timeout=1800)
+    mms, states = validate_trace(out, chunk=300)
+    evs = load_events(out)
+    bad = [evs[m["line"]] for m in mms]
+    again = confirm_batch(binp, pid, ["-mode", "exec", "-in", cases], bad, scd, tag="case-mc")
+    for m in mms:
+        ev = evs[m["line"]]
+        if ev["id"] not in again:
+            raise lib.Inconclusive("enumerated-case mismatch did not reproduce: %s" % ev.get("sql"))
+        verdict.add(signature(pid, ev) + "|enumerated", {"sql": ev.get("sql"), "got": ev.get("res"),
+                    "expected_rows": pretty_rows(m.get("exp", [])), "case_file": ev.get("case_file")})
+    return {"mc_cases_drawn": n, "mc_queries_executed": rep["cases"], "mc_states_validated": states,
+            "mc_tlc_wall_s": round(r.wall, 1), "mc_mismatches": len(mms)}
